@@ -9,7 +9,7 @@
   * nibabel/imageclasses.py:33-48          `all_image_classes` (order matters), `valid_exts` of every class
   * nibabel/filebasedimages.py:287-304     `to_filename` — rebinding `self.file_map`, then `to_file_map()`
   * nibabel/analyze.py:1001-1066           `AnalyzeImage.to_file_map` (SPM2 Analyze, NIfTI-1/2 single/pair inherit):
-                                            `data = np.asanyarray(self.dataobj)`; `if isinstance(data, np.memmap):
+                                            `data = np.asanyarray(self.dataobj)`; `if maps_file(data):
                                             data = np.array(data)` (the repair); `update_header()`; open 'wb'; write
   * nibabel/spm99analyze.py:304-340        `Spm99AnalyzeImage.to_file_map`: the above, then the affine goes to the
                                             `.mat` side file; `from_file_map` (241-302) reads it back
@@ -283,7 +283,7 @@ def writeTo (orig : Bool) (fs : FS) (im : Img) (q : Path) : Out × FS :=
   match materialise fs im with
   | none => (.bad, fs)
   | some m =>
-    -- if isinstance(data, np.memmap): data = np.array(data)     [the repair]
+    -- if maps_file(data): data = np.array(data)     [the repair; maps_file = a np.memmap or a view of one]
     let m? : Option Mat :=
       match m with
       | .ref _ _ _ _ => if orig then some m else (deref fs m).map Mat.copy
